@@ -2,8 +2,9 @@
 from vlib import *
 import iongen
 import binlib
+import c12text
 
-THEOREMS = []
+THEOREMS = ["C04_binary", "C04_binary_writer", "C04_binary_spec", "C04_binary_nan", "C04_binary_int64", "tw_tdecode_universe", "tw_tdecode_batches"]
 LEVEL = "other"
 EXPLANATION = ("value forests (boundary magnitudes, payload lengths 13/14/127/128/16383/16384, reserved-looking symbol text, "
                "deep nesting, every type under annotations and field names) are written by the real binary Writer and read "
@@ -33,3 +34,40 @@ def run(ctx):
         else:
             ok += 1
     ctx.count("C01-binary", len(rl), [], agree=ok)
+
+
+_run_binary = run
+
+
+def run(ctx):
+    _run_binary(ctx)
+    # text modes: the same kind of forests through the real text Writer (compact, pretty) and back through the real Reader
+    rng = ctx.rng
+    forests = binlib.boundary_forests() + binlib.gen_forests(ctx, ctx.scale(700, 20000), {"depth": 3})
+    forests = [f for f in forests if sum(len(str(v)) for v in f) < 200000]
+    seqs = c12text.textify([iongen.split_calls(iongen.calls_of_forest(f, rng)) for f in forests])
+    for opts, name in ((0, "compact"), (2, "pretty")):
+        wl = [c12text.line_of(opts, None, q) for q in seqs]
+        wo = run_go(wl)
+        rl, exp, src = [], [], []
+        for ln, f, g in zip(wl, forests, wo):
+            p = c12text.parse_tw(g)
+            if p is None or "0" in p[0]:
+                ctx.fail("property", "C01-text-" + name, ln[:3000], "a legal call sequence was refused or crashed: " + g[:160])
+                continue
+            rl.append("btrav 0 " + iongen.hx(p[1]))
+            exp.append(iongen.expected_trace(f))
+            src.append(ln)
+        back = run_go(rl)
+        ok = 0
+        for s_, e, g in zip(src, exp, back):
+            if iongen.project_trace(g) != e:
+                ctx.fail("property", "C01-text-" + name, s_[:3000], "written then read back as '%s', expected '%s'" % (iongen.project_trace(g)[:300], e[:300]),
+                         classify_text(s_))
+            else:
+                ok += 1
+        ctx.count("C01-text-" + name, len(rl), [x[:300] for x in rl], agree=ok)
+
+
+def classify_text(line):
+    return None
